@@ -359,11 +359,16 @@ class XRayTransform3D(LinearOperator):
         HTy = jnp.zeros(input_shape, dtype=proj.dtype)
         for view_ind, matrix in enumerate(matrices):
             for slice_offset in slice_offsets:
+                HTy_slab = HTy[slice_offset : slice_offset + MAX_SLICE_LEN]
+                if HTy_slab is HTy:
+                    # a slice covering the whole array is the array itself; its buffer is
+                    # donated below, so it must not be the buffer that is updated afterwards
+                    HTy_slab = jnp.copy(HTy)
                 HTy = HTy.at[slice_offset : slice_offset + MAX_SLICE_LEN].set(
                     XRayTransform3D._back_project_single(
                         proj[view_ind],
                         matrix,
-                        HTy[slice_offset : slice_offset + MAX_SLICE_LEN],
+                        HTy_slab,
                         slice_offset=slice_offset,
                     )
                 )
